@@ -1069,6 +1069,519 @@ struct MultisetDriver : DriverBase<MultisetDriver<K, N, Cmp, MCmp>> {
     }
 };
 
+// ================================================================================================ stateful comparator
+// flat_set keeps a comparator OBJECT: two sets of the same type can order their keys differently. Every operation that
+// moves keys between sets (swap, copy / move assignment, copy construction) has to move the comparator with them.
+struct DirCmp {
+    bool desc = false;
+
+    auto operator()(int a, int b) const -> bool { return desc ? b < a : a < b; }
+};
+
+struct FlatCmpDriver : DriverBase<FlatCmpDriver> {
+    using Base = DriverBase<FlatCmpDriver>;
+    static constexpr size_t N = 4;
+    using Cont = etl::static_vector<int, N>;
+    using Set  = etl::flat_set<int, Cont, DirCmp>;
+    using M    = std::set<int, DirCmp>;
+
+    Set* obj[3] = {nullptr, nullptr, nullptr};
+    M model[3];
+    bool moved[3] = {false, false, false};
+
+    FlatCmpDriver(Plan const& p, Ctx& c)
+        : Base(p, c)
+    {
+    }
+
+    void resync(int s)
+    {
+        if (obj[s] == nullptr) {
+            return;
+        }
+        guarded(false, [&] {
+            M fresh(DirCmp{obj[s]->key_comp().desc});
+            for (int k : *obj[s]) {
+                fresh.insert(k);
+            }
+            model[s] = fresh;
+        });
+    }
+
+    auto check_state(int s, char const* prop, char const* prefix) -> bool
+    {
+        bool mismatch = false;
+        auto bad      = [&](char const* what) {
+            if (!mismatch) {
+                mismatch = true;
+                ctx.violation(prop, std::string(prefix) + ":" + what, std::string("flat_set with a stateful comparator: ") + what + " differs from std::set (slot " + std::to_string(s) + ")");
+            }
+        };
+        bool ok = observe("flat_set<DirCmp>", [&] {
+            Set const& c = *obj[s];
+            M const& m   = model[s];
+            if (c.key_comp().desc != m.key_comp().desc) {
+                bad("comparator");
+                return;
+            }
+            if (c.size() != m.size() || c.empty() != m.empty()) {
+                bad("size");
+                return;
+            }
+            auto mi = m.begin();
+            for (auto it = c.begin(); it != c.end(); ++it, ++mi) {
+                if (*it != *mi) {
+                    bad("order");
+                    return;
+                }
+            }
+            for (int k = -1; k <= kUniverse; ++k) {
+                bool const has = m.count(k) != 0;
+                if (c.contains(k) != has || c.count(k) != (has ? 1U : 0U) || (c.find(k) != c.end()) != has) {
+                    bad("lookup");
+                    return;
+                }
+                if (has && *c.find(k) != k) {
+                    bad("find");
+                    return;
+                }
+                if (c.lower_bound(k) - c.begin() != std::distance(m.begin(), m.lower_bound(k)) || c.upper_bound(k) - c.begin() != std::distance(m.begin(), m.upper_bound(k))) {
+                    bad("bounds");
+                    return;
+                }
+            }
+        });
+        if (!ok) {
+            ctx.stop = true;
+        }
+        return !mismatch;
+    }
+
+    void destroy(int s)
+    {
+        if (obj[s] == nullptr) {
+            return;
+        }
+        guarded(true, [&] { obj[s]->~Set(); });
+        if (!arena_guards_ok(s)) {
+            ctx.violation("C02", "memory:guard-damaged", "guard bytes around the set were overwritten");
+        }
+        arena_retire(s);
+        obj[s] = nullptr;
+    }
+
+    void create(int s, Step const& st, uint64_t salt)
+    {
+        bool const desc = (st.v[0] + static_cast<int64_t>(salt)) % 2 != 0;
+        int const form  = static_cast<int>(st.k[2] % 3);
+        size_t const n  = form == 0 ? 0 : static_cast<size_t>(st.k[0] % (N + 1));
+        std::vector<int> vals;
+        for (size_t j = 0; j < n; ++j) {
+            vals.push_back(static_cast<int>((static_cast<uint64_t>(st.v[j % 4]) * 3 + j * (st.k[1] % 7)) % kUniverse));
+        }
+        M m(DirCmp{desc});
+        m.insert(vals.begin(), vals.end());
+        std::vector<int> sorted(m.begin(), m.end());
+        ExactBuf<int> in(form == 2 ? sorted.size() : vals.size());
+        for (size_t j = 0; j < in.n; ++j) {
+            in.p[j] = form == 2 ? sorted[j] : vals[j];
+        }
+        void* mem = arena_prepare(s, sizeof(Set), plan.cfg, static_cast<uint64_t>(ctx.step + 2) + salt, alignof(Set));
+        Set* made = nullptr;
+        bool ok   = call(-1, false, false, [&] {
+            switch (form) {
+            case 0: made = new (mem) Set(DirCmp{desc}); break;
+            case 1: made = new (mem) Set(in.begin(), in.end(), DirCmp{desc}); break;
+            default: made = new (mem) Set(etl::sorted_unique, in.begin(), in.end(), DirCmp{desc}); break;
+            }
+        });
+        if (!ok) {
+            ctx.stop = true;
+            return;
+        }
+        obj[s]   = made;
+        model[s] = m;
+        moved[s] = false;
+        ctx.log.kv("desc", desc);
+        ctx.log.kv("form", form);
+    }
+
+    void step(Step const& st)
+    {
+        int const a      = static_cast<int>(st.a % static_cast<uint32_t>(pool));
+        int const b      = static_cast<int>(st.b % static_cast<uint32_t>(pool));
+        char const* name = ops()[static_cast<size_t>(st.op)].name;
+        std::string const op = name;
+        begin_op(name, a);
+        ctx.log.kv("b", b);
+        Set& v   = *obj[a];
+        M& m     = model[a];
+        int const key = static_cast<int>(static_cast<uint64_t>(st.v[0]) % kUniverse);
+        if (moved[a] && op != "recreate" && op != "copy_assign" && op != "move_assign" && op != "clear") {
+            skip();
+            return;
+        }
+        if (op == "recreate") {
+            destroy(a);
+            create(a, st, 0);
+            ++ctx.stateChanging;
+            return;
+        }
+        if (op == "insert" || op == "emplace") {
+            ctx.log.kv("key", key);
+            if (m.size() == N && m.count(key) == 0) {
+                skip(); // would overflow the backing container: its precondition, covered by the generic set scenarios
+                return;
+            }
+            bool inserted = false;
+            long at       = -1;
+            bool ok       = call(a, false, false, [&] {
+                auto r   = op == "insert" ? v.insert(key) : v.emplace(key);
+                inserted = r.second;
+                at       = r.first - v.begin();
+            });
+            if (ok) {
+                auto mr = m.insert(key);
+                if (inserted != mr.second || at != std::distance(m.begin(), mr.first)) {
+                    ctx.violation("C09", std::string("diff:stateful-comparator:") + name, "insert result differs from std::set with the same comparator object");
+                }
+                ++ctx.stateChanging;
+                if (m.size() == N) {
+                    ++ctx.boundaryEvents;
+                }
+            }
+            return;
+        }
+        if (op == "erase") {
+            ctx.log.kv("key", key);
+            size_t got = 0;
+            bool ok    = call(a, false, false, [&] { got = v.erase(key); });
+            if (ok) {
+                if (got != m.erase(key)) {
+                    ctx.violation("C09", "diff:stateful-comparator:erase", "erase(key) count differs from std::set");
+                }
+                ++ctx.stateChanging;
+            }
+            return;
+        }
+        if (op == "clear") {
+            if (call(a, false, false, [&] { v.clear(); })) {
+                m.clear();
+                moved[a] = false;
+                ++ctx.stateChanging;
+                ++ctx.boundaryEvents;
+            }
+            return;
+        }
+        if (obj[b] == nullptr || moved[b]) {
+            skip();
+            return;
+        }
+        if (op == "swap") {
+            bool ok = call(a, false, false, [&] {
+                if (st.k[0] % 2 == 0) {
+                    v.swap(*obj[b]);
+                } else {
+                    using etl::swap;
+                    swap(v, *obj[b]);
+                }
+            });
+            if (ok) {
+                if (a != b) {
+                    std::swap(model[a], model[b]);
+                    if (model[a].key_comp().desc != model[b].key_comp().desc) {
+                        SIM_COUNT("reach.swap_of_sets_with_different_comparator_state");
+                        ++ctx.boundaryEvents;
+                    }
+                }
+                ++ctx.stateChanging;
+            }
+            return;
+        }
+        if (op == "copy_assign") {
+            bool ok = call(a, false, false, [&] { v = static_cast<Set const&>(*obj[b]); });
+            if (ok) {
+                if (a != b) {
+                    m = model[b];
+                }
+                moved[a] = false;
+                ++ctx.stateChanging;
+                ++ctx.boundaryEvents;
+            }
+            return;
+        }
+        if (op == "move_assign") {
+            if (a == b) {
+                skip();
+                return;
+            }
+            bool ok = call(a, false, false, [&] { v = static_cast<Set&&>(*obj[b]); });
+            if (ok) {
+                m        = model[b];
+                moved[a] = false;
+                moved[b] = true;
+                ++ctx.stateChanging;
+                ++ctx.boundaryEvents;
+            }
+            return;
+        }
+        skip();
+    }
+
+    void run()
+    {
+        Step init{};
+        for (int s = 0; s < pool; ++s) {
+            ctx.step  = -1;
+            init.v[0] = static_cast<int64_t>((plan.seed >> (5 + s)) & 1U);
+            create(s, init, static_cast<uint64_t>(s) + 1);
+        }
+        for (size_t i = 0; i < plan.steps.size() && !ctx.stop; ++i) {
+            ctx.step     = static_cast<int>(i);
+            g_crash.step = ctx.step;
+            step(plan.steps[i]);
+            uint64_t sh = hstr(plan.scenario.c_str());
+            for (int s = 0; s < pool && !ctx.stop; ++s) {
+                if (obj[s] == nullptr || moved[s]) {
+                    continue;
+                }
+                if (!check_state(s, "C09", "diff:stateful-comparator")) {
+                    resync(s);
+                }
+                if (!arena_guards_ok(s)) {
+                    ctx.violation("C02", "memory:guard-damaged", "guard bytes around the set were overwritten");
+                    arena_guards_repair(s);
+                }
+                uint64_t eh = model[s].key_comp().desc ? 77 : 33;
+                for (int k : model[s]) {
+                    eh = mix64(eh ^ static_cast<uint64_t>(k));
+                }
+                ctx.log.feed(eh);
+                sh = mix64(sh ^ eh ^ (static_cast<uint64_t>(s) << 56));
+            }
+            if (g_counting) {
+                states().insert(sh);
+                transitions().insert(mix64(sh ^ hstr(ctx.op)));
+            }
+            ctx.log.nl();
+        }
+        for (int s = 0; s < pool; ++s) {
+            destroy(s);
+        }
+    }
+
+    static auto ops() -> std::vector<OpDef> const&
+    {
+        static std::vector<OpDef> const o = {
+            {"recreate", 4}, {"insert", 8}, {"emplace", 4}, {"erase", 5}, {"clear", 1}, {"swap", 6}, {"copy_assign", 4}, {"move_assign", 3},
+        };
+        return o;
+    }
+};
+
+// ================================================================================================ emplace arguments
+// A key type for which Key(a, b) and Key{a, b} mean different things (like std::vector): emplace must construct the key
+// from its arguments with parentheses, as std::set / std::flat_set do.
+struct BagKey {
+    int n    = 0;
+    int e[4] = {0, 0, 0, 0};
+
+    BagKey() = default;
+
+    explicit BagKey(int count) // count zeros
+        : n(count < 4 ? count : 4)
+    {
+    }
+
+    BagKey(int count, int value) // count copies of value
+        : n(count < 4 ? count : 4)
+    {
+        for (int i = 0; i < n; ++i) {
+            e[i] = value;
+        }
+    }
+
+    BagKey(std::initializer_list<int> il) // the listed values
+    {
+        for (int x : il) {
+            if (n < 4) {
+                e[n++] = x;
+            }
+        }
+    }
+
+    [[nodiscard]] auto code() const -> long long
+    {
+        long long c = n;
+        for (int i = 0; i < 4; ++i) {
+            c = c * 16 + e[i];
+        }
+        return c;
+    }
+
+    friend auto operator<(BagKey const& a, BagKey const& b) -> bool { return a.code() < b.code(); }
+
+    friend auto operator==(BagKey const& a, BagKey const& b) -> bool { return a.code() == b.code(); }
+};
+
+template <bool Flat>
+struct BagSetDriver : DriverBase<BagSetDriver<Flat>> {
+    using Base = DriverBase<BagSetDriver<Flat>>;
+    using Base::begin_op;
+    using Base::call;
+    using Base::ctx;
+    using Base::observe;
+    using Base::plan;
+    using Base::skip;
+    static constexpr size_t N = 4;
+    using Set = std::conditional_t<Flat, etl::flat_set<BagKey, etl::static_vector<BagKey, N>>, etl::static_set<BagKey, N>>;
+    using M   = std::set<BagKey>;
+
+    Set* obj = nullptr;
+    M model;
+
+    BagSetDriver(Plan const& p, Ctx& c)
+        : Base(p, c)
+    {
+    }
+
+    void resync(int)
+    {
+        guarded(false, [&] {
+            model.clear();
+            for (auto const& k : *obj) {
+                model.insert(k);
+            }
+        });
+    }
+
+    auto check_state(int, char const* prop, char const* prefix) -> bool
+    {
+        bool mismatch = false;
+        observe("set<BagKey>", [&] {
+            Set const& c = *obj;
+            if (c.size() != model.size()) {
+                mismatch = true;
+            } else {
+                auto mi = model.begin();
+                for (auto it = c.begin(); it != c.end(); ++it, ++mi) {
+                    mismatch = mismatch || !(*it == *mi);
+                }
+            }
+        });
+        if (mismatch) {
+            ctx.violation(prop, std::string(prefix) + ":keys", "the set does not hold the keys std::set holds after the same emplace / insert calls");
+        }
+        return !mismatch;
+    }
+
+    void run()
+    {
+        void* mem = arena_prepare(0, sizeof(Set), plan.cfg, 1, alignof(Set));
+        obj       = new (mem) Set{};
+        for (size_t i = 0; i < plan.steps.size() && !ctx.stop; ++i) {
+            Step const& st = plan.steps[i];
+            ctx.step       = static_cast<int>(i);
+            g_crash.step   = ctx.step;
+            char const* name = ops()[static_cast<size_t>(st.op)].name;
+            std::string const op = name;
+            begin_op(name, 0);
+            int const x = static_cast<int>(static_cast<uint64_t>(st.v[0]) % 4);
+            int const y = static_cast<int>(static_cast<uint64_t>(st.v[1]) % 4);
+            ctx.log.kv("x", x);
+            ctx.log.kv("y", y);
+            Set& v = *obj;
+            if (op == "clear") {
+                if (call(0, false, false, [&] { v.clear(); })) {
+                    model.clear();
+                }
+            } else if (op == "erase") {
+                BagKey const k(x, y);
+                size_t got = 0;
+                if (call(0, false, false, [&] { got = v.erase(k); }) && got != model.erase(k)) {
+                    ctx.violation("C09", "diff:emplace-arguments:erase", "erase(key) count differs from std::set");
+                }
+            } else {
+                // what std::set would hold afterwards decides whether the call fits
+                M trial = model;
+                bool wantInserted = false;
+                if (op == "emplace2") {
+                    wantInserted = trial.emplace(x, y).second;
+                } else if (op == "emplace1") {
+                    wantInserted = trial.emplace(x).second;
+                } else {
+                    wantInserted = trial.insert(BagKey(x, y)).second;
+                }
+                if (trial.size() > N) {
+                    skip();
+                } else {
+                    bool inserted = false;
+                    bool ok       = call(0, false, false, [&] {
+                        if (op == "emplace2") {
+                            inserted = v.emplace(x, y).second;
+                        } else if (op == "emplace1") {
+                            inserted = v.emplace(x).second;
+                        } else {
+                            inserted = v.insert(BagKey(x, y)).second;
+                        }
+                    });
+                    if (ok) {
+                        if (inserted != wantInserted) {
+                            ctx.violation("C09", std::string("diff:emplace-arguments:") + name, "emplace / insert reported another outcome than std::set for the same arguments");
+                        }
+                        model = trial;
+                        ++ctx.stateChanging;
+                        if (model.size() == N) {
+                            ++ctx.boundaryEvents;
+                        }
+                    }
+                }
+            }
+            if (!check_state(0, "C09", "diff:emplace-arguments")) {
+                resync(0);
+            }
+            if (!arena_guards_ok(0)) {
+                ctx.violation("C02", "memory:guard-damaged", "guard bytes around the set were overwritten");
+                arena_guards_repair(0);
+            }
+            uint64_t eh = model.size();
+            for (auto const& k : model) {
+                eh = mix64(eh ^ static_cast<uint64_t>(k.code()));
+            }
+            ctx.log.feed(eh);
+            if (g_counting) {
+                states().insert(mix64(eh ^ hstr(plan.scenario.c_str())));
+                transitions().insert(mix64(eh ^ hstr(ctx.op)));
+            }
+            ctx.log.nl();
+        }
+        guarded(true, [&] { obj->~Set(); });
+        arena_retire(0);
+    }
+
+    static auto ops() -> std::vector<OpDef> const&
+    {
+        static std::vector<OpDef> const o = {{"emplace2", 8}, {"emplace1", 5}, {"insert", 4}, {"erase", 4}, {"clear", 1}};
+        return o;
+    }
+};
+
+template <typename D>
+void add_plain(std::string name)
+{
+    Scenario s;
+    s.family   = "set";
+    s.name     = std::move(name);
+    s.ops      = D::ops();
+    s.props    = {"C09", "C02"};
+    s.maxSteps = 30;
+    s.run      = [](Plan const& p, Ctx& c) {
+        D d(p, c);
+        d.run();
+    };
+    registry().push_back(std::move(s));
+}
+
 template <typename Set, typename K, size_t N, typename MCmp, SK Which, bool Transparent>
 void add_set(std::string name)
 {
@@ -1132,6 +1645,9 @@ void register_set_0()
     add_for<int, 4>("int");
     add_multi<int, 4, etl::less<int>, std::less<int>>("flat_multiset<int,4,less>");
     add_multi<int, 6, etl::greater<int>, std::greater<int>>("flat_multiset<int,6,greater>");
+    add_plain<FlatCmpDriver>("flat_set<int,4,stateful-comparator>");
+    add_plain<BagSetDriver<false>>("static_set<BagKey,4>");
+    add_plain<BagSetDriver<true>>("flat_set<BagKey,4>");
 }
 
 auto main(int argc, char** argv) -> int
